@@ -34,6 +34,14 @@ def label_variants(spec):
         ids = [("x%d" % i if i % 2 else 100 - i) for i in range(len(simp))]
         out.append(("explicit-ids", F.S([sorted(s) for s in simp], nodes=list(nodes), ids=ids)))
     out.append(("reversed", F.relabel(spec, reverse_nodes=True, reverse_members=True)))
+    # numeric labels of several types inside one simplex (ints with larger and smaller floats, numpy with python ints):
+    # every branch must order the vertices of a simplex the same way
+    srt = sorted(nodes)
+    out.append(("int-float mix", F.relabel(spec, node_map={n: (n if i % 2 == 0 else n + 0.5) for i, n in enumerate(srt)})))
+    out.append(("float-int mix", F.relabel(spec, node_map={n: (n - 0.5 if i % 2 == 0 else n) for i, n in enumerate(srt)})))
+    out.append(("floats", F.relabel(spec, node_map={n: n / 4 for n in srt})))
+    out.append(("numpy-int mix", F.relabel(spec, node_map={n: (np.int64(n) if i % 2 == 0 else n) for i, n in enumerate(srt)})))
+    out.append(("negative ints", F.relabel(spec, node_map={n: n - 3 for n in srt}, reverse_nodes=True)))
     return out
 
 
